@@ -37,6 +37,9 @@ enum class K
   Cause,        // a close cause was issued for sid               (a=cause code, b=1 definite)
   StopBegin,
   StopEnd,
+  ModeBegin,    // setReadMode(sid, mode) about to be called        (a=mode 0 Async 1 Sync 2 Disabled)
+  ModeEnd,      // setReadMode returned                              (a=mode, b=ret)
+  RecvEnd,      // receiveSync(sid) returned                         (a=bytes or 0, b=error code or 0)
   // callbacks
   Accept,     // (a=peer port)
   Connect,
@@ -106,11 +109,24 @@ struct Log
   void addCb(K k, std::uint64_t sid, std::uint64_t a, std::size_t gauge)
   {
     std::lock_guard<std::mutex> lk(mu);
+    const bool io = std::this_thread::get_id() != mainTid;
     if (k == K::Accept || k == K::Connect) open.insert(sid);
     if (k == K::CloseBegin) open.erase(sid);
-    ev.push_back(Event{k, sid, a, static_cast<std::uint64_t>(gauge), true});
+    ev.push_back(Event{k, sid, a, static_cast<std::uint64_t>(gauge), io});
+    if (!io)
+    {
+      // a callback running synchronously inside an application call (setReadMode flush): the
+      // announced-open set belongs to the I/O thread, so a sample taken here is not judged
+      cv.notify_all();
+      return;
+    }
     ++gaugeSamples;
     if (open.size() > maxOpen) maxOpen = open.size();
+    if (gauge > (static_cast<std::size_t>(1) << 40) && gaugeFail.empty())
+    {
+      gaugeFail = pbt::Fmt() << "inside callback #" << (ev.size() - 1) << " (sid " << sid << "): sessionsCurrent=" << gauge
+                             << " - the gauge wrapped below zero (a close was counted for a session whose open was not)";
+    }
     if (gauge < open.size() && gaugeFail.empty())
     {
       gaugeFail = pbt::Fmt() << "inside callback #" << (ev.size() - 1) << " (sid " << sid
@@ -158,6 +174,9 @@ inline const char *kname(K k)
   case K::DataBegin: return "setData(";
   case K::DataEnd: return "setData)";
   case K::Cause: return "cause";
+  case K::ModeBegin: return "setReadMode(";
+  case K::ModeEnd: return "setReadMode)";
+  case K::RecvEnd: return "receiveSync)";
   case K::StopBegin: return "stop(";
   case K::StopEnd: return "stop)";
   case K::Accept: return "onAccept";
@@ -182,6 +201,9 @@ inline std::string render(const std::vector<Event> &ev, std::size_t maxEvents = 
     s += std::to_string(i) + ":" + kname(e.k) + (e.io ? "*" : "") + " s" + std::to_string(e.sid);
     if (e.k == K::Cause) s += std::string(" ") + causeName(e.a);
     else if (e.k == K::CloseBegin) s += " code" + std::to_string(e.a);
+    else if (e.k == K::ModeBegin || e.k == K::ModeEnd) s += std::string(" ") + (e.a == 0 ? "Async" : e.a == 1 ? "Sync" : "Disabled");
+    else if (e.k == K::RecvEnd) s += " n" + std::to_string(e.a) + " err" + std::to_string(e.b);
+    else if (e.k == K::Data) s += " n" + std::to_string(e.a);
     else if (e.k == K::Observer || e.k == K::Cleanup || e.k == K::ObsBegin || e.k == K::ObsEnd ||
              e.k == K::UnobsBegin || e.k == K::UnobsEnd || e.k == K::DataBegin || e.k == K::DataEnd)
       s += " t" + std::to_string(e.a);
@@ -265,6 +287,24 @@ inline bool check(pbt::Case &c, Log &log, const CheckOpts &o)
     }
   }
 
+  // fanoutDone(sid): first index after closeEnd(sid) that proves the I/O thread left
+  // this id's close dispatch (a callback for something else, or stop() returned)
+  auto fanoutDone = [&](std::uint64_t sid) -> std::size_t
+  {
+    auto it = ss.find(sid);
+    if (it == ss.end() || it->second.closeEnd == NONE) return NONE;
+    for (std::size_t i = it->second.closeEnd + 1; i < ev.size(); ++i)
+    {
+      auto &e = ev[i];
+      if (e.k == K::StopEnd) return i;
+      if (!e.io) continue;
+      bool own = e.sid == sid && (e.k == K::Observer || e.k == K::Cleanup);
+      bool cb = e.k == K::Accept || e.k == K::Connect || e.k == K::Data || e.k == K::CloseBegin ||
+                e.k == K::Observer || e.k == K::Cleanup;
+      if (cb && !own) return i;
+    }
+    return NONE;
+  };
   // ---- per id --------------------------------------------------------------
   for (auto &kv : ss)
   {
@@ -287,6 +327,47 @@ inline bool check(pbt::Case &c, Log &log, const CheckOpts &o)
     const std::size_t announce = s.accept != NONE ? s.accept : s.connect;
     for (auto di : s.data)
     {
+      if (s.closeBegin != NONE && di > s.closeBegin && !ev[di].io)
+      {
+        // delivered synchronously inside a setReadMode() flush of the application thread: a
+        // flush that BEGAN before the close was entered merely overlaps it (its chunk was taken
+        // from the buffer before the close) - only a flush begun after the close is a violation
+        std::size_t mb = NONE;
+        for (std::size_t i = di; i-- > 0;)
+          if (ev[i].k == K::ModeBegin && !ev[i].io)
+          {
+            mb = i;
+            break;
+          }
+          else if (ev[i].k == K::ModeEnd && !ev[i].io) break;
+        if (mb == NONE || mb < s.closeBegin) continue;
+        // ... and so does a flush begun while the close DISPATCH was still running: the handler
+        // drops the session's read mode only after the global callback and the observers, so a
+        // switch issued from another thread in between still sees the old mode. Proof that the
+        // dispatch is past that step: the user-data cleanup (last step) ran, or the I/O thread
+        // was seen doing something else / stop() returned.
+        std::size_t proof = fanoutDone(sid);
+        for (auto ci : s.cleanups) proof = std::min(proof, ci);
+        if (proof == NONE || mb < proof) continue;
+        // which switch armed the buffering mode this flush ends? If the application re-armed
+        // Sync/Disabled on the id AFTER its close, it is the "re-arm" shape (finding C02-2);
+        // if the mode dates from before the close, the close handler failed to drop it.
+        bool rearmedAfterClose = false;
+        for (std::size_t i = mb == NONE ? 0 : mb; i-- > 0;)
+          if (ev[i].k == K::ModeEnd && ev[i].sid == sid && ev[i].a != 0 && ev[i].b != 0)
+          {
+            rearmedAfterClose = i > s.closeBegin;
+            break;
+          }
+        if (rearmedAfterClose)
+          return fail("C02/data-after-close/flush-after-rearm",
+                      id + ": after the close (#" + std::to_string(s.closeBegin) + ") the application re-armed Sync/Disabled and "
+                           "switched back to Async (#" + std::to_string(mb) + "): leftover bytes were delivered through onData (#" +
+                        std::to_string(di) + ") after onClose");
+        return fail("C02/data-after-close/flush", id + ": setReadMode begun at #" + std::to_string(mb == NONE ? 0 : mb) +
+                                                    " delivered onData (#" + std::to_string(di) + ") after the session's close (#" +
+                                                    std::to_string(s.closeBegin) + ")");
+      }
       if (s.closeBegin != NONE && di > s.closeBegin)
         return fail("C02/data-after-close", id + ": onData (#" + std::to_string(di) + ") after its close (#" +
                                               std::to_string(s.closeBegin) + ")");
@@ -336,24 +417,6 @@ inline bool check(pbt::Case &c, Log &log, const CheckOpts &o)
   }
 
   // ---- observers -----------------------------------------------------------
-  // fanoutDone(sid): first index after closeEnd(sid) that proves the I/O thread left
-  // this id's close dispatch (a callback for something else, or stop() returned)
-  auto fanoutDone = [&](std::uint64_t sid) -> std::size_t
-  {
-    auto it = ss.find(sid);
-    if (it == ss.end() || it->second.closeEnd == NONE) return NONE;
-    for (std::size_t i = it->second.closeEnd + 1; i < ev.size(); ++i)
-    {
-      auto &e = ev[i];
-      if (e.k == K::StopEnd) return i;
-      if (!e.io) continue;
-      bool own = e.sid == sid && (e.k == K::Observer || e.k == K::Cleanup);
-      bool cb = e.k == K::Accept || e.k == K::Connect || e.k == K::Data || e.k == K::CloseBegin ||
-                e.k == K::Observer || e.k == K::Cleanup;
-      if (cb && !own) return i;
-    }
-    return NONE;
-  };
   // first index that proves the observer list of sid was already copied
   auto copyDone = [&](std::uint64_t sid) -> std::size_t
   {
